@@ -180,7 +180,7 @@ def judge(M, params, req, topics, full, asleft, used_br):
                 findings.append({'prop': 'C07', 'cls': 'foreign-entry', 'detail': {'topic': t, 'extra': extra[:4], 'inflight_n': len(extra_ok)}})
             elif req.get('op') == 'batch' and t == it and len(ients) >= 2 and 0 < len(extra) < len(ients):
                 shape = 'prefix' if extra == ients[:len(extra)] else 'non-prefix'
-                findings.append({'prop': 'C08', 'cls': 'partial-batch(in-flight)', 'detail': {'topic': t, 'batch_entries': len(ients), 'recovered': len(extra), 'shape': shape}})
+                findings.append({'prop': 'C08', 'cls': 'partial-batch(in-flight)' if shape == 'prefix' else 'partial-batch(in-flight,non-prefix)', 'detail': {'topic': t, 'batch_entries': len(ients), 'recovered': len(extra), 'shape': shape}})
     # ---- (b) as left: consumer position
     if 'open' not in asleft and 'died' not in asleft:
         for t in topics:
